@@ -131,6 +131,27 @@ func c20KnockRoles(c *Ctx, snd *ssa.Send, key string) {
 				continue
 			}
 			s := Render(st.Val)
+			// a queueing helper handed the value as a parameter: what every call site passes
+			if pr, isP := st.Val.(*ssa.Parameter); isP {
+				fn := pr.Parent()
+				idx := paramIdx(pr)
+				var got []string
+				for _, g := range p.FuncsIn(canaryRel) {
+					for _, call := range Calls(g) {
+						if call.Common().StaticCallee() == fn && idx < len(call.Common().Args) {
+							got = append(got, Render(call.Common().Args[idx]))
+						}
+					}
+				}
+				if len(got) > 0 {
+					s = got[0]
+					for _, g := range got {
+						if !strings.HasSuffix(g, want[name]) {
+							s = g
+						}
+					}
+				}
+			}
 			c.Check(strings.HasSuffix(s, want[name]), "knock-roles", key+"."+name, p.InstrPos(st), "= "+s, "knock field "+name+" is filled from `"+s+"` (expected the packet's "+want[name]+" field): source and destination of the scan are confused")
 		}
 	}
